@@ -33,7 +33,7 @@ func C18(c *core.Ctx) error {
 	}
 	names := []string{c18pkg, "~", "null", "true", "123", "1.5", "a-b", "a.b/c", "a_b", "github.com/Foo/Bar", "x/" + strings.Repeat("long", 80),
 		"a: b", "#x", "- x", "-x", "\"q\"", "'", "{a}", "[a]", "*a", "&a", "!t", "%", "@", "|", ">", " lead", "trail ", "a\nb", "yes", "0x1f", "1e3", "a#b", "a:b", "ünï", "a\tb", "?", "<<", "=", "null/x", "~/x", "a,b", "`a`", ".", "..", "a/../b", ""}
-	states := []string{"absent", "empty", "content", "dir", "symlink", "noparent"}
+	states := []string{"absent", "empty", "content", "dir", "symlink", "symlink-live-parent", "noparent"}
 	targets := []string{"default", "relative", "nested", "absolute"}
 	var cases []c18case
 	seen := map[string]bool{}
@@ -115,6 +115,10 @@ func C18(c *core.Ctx) error {
 			os.MkdirAll(filepath.Join(target, "sub"), 0o755)
 		case "symlink":
 			os.Symlink(filepath.Join(root, "nowhere", "x.yml"), target)
+		case "symlink-live-parent":
+			// dangling link whose destination directory exists: a non-exclusive create would write through it
+			os.MkdirAll(filepath.Join(root, "shared"), 0o755)
+			os.Symlink(filepath.Join(root, "shared", "x.yml"), target)
 		}
 		before := core.Snapshot(root)
 		cmd := append([]string{"init"}, args...)
@@ -132,7 +136,7 @@ func C18(c *core.Ctx) error {
 		}
 		added, removed, changed := core.DiffSnapshots(before, after)
 		outc[i] = fmt.Sprintf("exit=%d added=%d changed=%d", r.Exit, len(added), len(changed))
-		exists := cs.state == "empty" || cs.state == "content" || cs.state == "dir" || cs.state == "symlink"
+		exists := cs.state == "empty" || cs.state == "content" || cs.state == "dir" || cs.state == "symlink" || cs.state == "symlink-live-parent"
 		if exists {
 			if r.Exit == 0 {
 				c.Report("exists-exit0:"+id, "target exists but init reported success", replay)
